@@ -173,6 +173,22 @@ def _order_insensitive_stmts(body: List[ast.stmt], cls_methods: Dict[str, ast.Fu
 _MUTATORS_P5 = {"setdefault", "update", "pop", "popitem", "append", "extend", "insert", "add", "clear", "remove", "discard", "sort", "reverse"}
 
 
+_ITER_MAKERS = ("iter", "map", "filter", "zip", "enumerate", "reversed", "chain", "islice", "count", "cycle", "accumulate", "repeat")
+
+
+def _stateful_iterator(v: ast.AST) -> bool:
+    """A value that is consumed / advanced by reading it: generator expression, iter(), map() ..., itertools.count()."""
+    if isinstance(v, ast.GeneratorExp):
+        return True
+    if isinstance(v, ast.Call):
+        f = v.func
+        if isinstance(f, ast.Name) and f.id in _ITER_MAKERS:
+            return True
+        if isinstance(f, ast.Attribute) and f.attr in _ITER_MAKERS and isinstance(f.value, ast.Name) and f.value.id == "itertools":
+            return True
+    return False
+
+
 @rule("P5", "DETERMINISM: no iteration over a set reaches the output unsorted; no nondeterministic source; no state kept between calls", ["C12"], floor=3)
 def p5(ctx: Ctx):
     py = pyfacts(ctx)
@@ -402,7 +418,7 @@ def p5(ctx: Ctx):
         # module-level one-shot iterators (a generator expression, iter(), map(), filter(), zip() ...) read inside a function:
         # the first call consumes them, every later call sees them empty
         for gname, v in sorted(m.assigns.items()):
-            oneshot = isinstance(v, ast.GeneratorExp) or (isinstance(v, ast.Call) and isinstance(v.func, ast.Name) and v.func.id in ("iter", "map", "filter", "zip", "enumerate", "reversed", "chain", "islice"))
+            oneshot = _stateful_iterator(v)
             if not oneshot:
                 continue
             users = [fn for fn in ast.walk(m.tree) if isinstance(fn, ast.FunctionDef) and any(isinstance(x, ast.Name) and x.id == gname and isinstance(x.ctx, ast.Load) for x in ast.walk(fn))]
@@ -421,6 +437,13 @@ def p5(ctx: Ctx):
             for st in ci.node.body:
                 if isinstance(st, (ast.Assign, ast.AnnAssign)):
                     v = st.value
+                    # a class-level iterator / counter (`_ids = itertools.count(1)`) advances for the life of the process
+                    if v is not None and _stateful_iterator(v):
+                        nm = unparse(st.targets[0] if isinstance(st, ast.Assign) else st.target)
+                        users_ = [f_.name for f_ in ast.walk(ci.node) if isinstance(f_, ast.FunctionDef) and any(isinstance(x, ast.Attribute) and x.attr == nm and isinstance(x.value, ast.Name) and x.value.id in ("self", "cls", ci.name) for x in ast.walk(f_))]
+                        if users_:
+                            ctx.ob(f"{m.rel}:{ci.name}.{nm}:class-iterator", False, f"class-level `{ci.name}.{nm}` is one iterator (`{unparse(v)[:40]}`) shared by every instance and advanced in `{users_[0]}`: numbers handed out in one conversion are not handed out again in the next, so the same program converts to different text the second time", file=m.rel, line=st.lineno)
+                        continue
                     if v is not None and (isinstance(v, (ast.List, ast.Dict, ast.Set)) or (isinstance(v, ast.Call) and call_name(v) in ("list", "dict", "set", "defaultdict"))):
                         nm = unparse(st.targets[0] if isinstance(st, ast.Assign) else st.target)
                         ctx.ob(f"{m.rel}:{ci.name}.{nm}", False, f"class-level mutable container `{ci.name}.{nm}` is shared by all instances: state carried between conversions", file=m.rel, line=st.lineno)
